@@ -29,6 +29,7 @@ fn main() {
             std::process::exit(code);
         }
         Some("calib") => calib(&args[2..]),
+        Some("lexdiff") => lexdiff(),
         Some("dumpn") => dumpn(&args[2]),
         _ => {
             eprintln!("usage: vcheck t0scan [props]");
@@ -158,5 +159,38 @@ fn calib(args: &[String]) {
     println!("cases {} fails {} skips {}", total.0, total.1, total.2);
     for (k, v) in labels {
         println!("  {k:28} {:8} fails {:6} ({:.3}%)", v.0, v.1, 100.0 * v.1 as f64 / v.0.max(1) as f64);
+    }
+}
+
+#[allow(dead_code)]
+pub fn lexdiff() {
+    // development aid: string bodies the trusted parser accepts but the checker's lexer rejects
+    use vlib::lex::{lex, Syntax};
+    let alphabet = ["'", "\"", "\\", "n", "0", "1", "9", "x", "u", "{", "}", "z", "a", "q", "\n", " "];
+    let mut bodies = vec![String::new()];
+    let mut frontier = vec![String::new()];
+    for _ in 0..3 {
+        let mut next = Vec::new();
+        for b in &frontier {
+            for a in alphabet {
+                next.push(format!("{b}{a}"));
+            }
+        }
+        bodies.extend(next.iter().cloned());
+        frontier = next;
+    }
+    let mut shown = 0;
+    for b in bodies {
+        for lit in [format!("'{b}'"), format!("\"{b}\""), format!("[[{b}]]")] {
+            let p = format!("x = {lit}\n");
+            for syn in [Syntax::Lua51, Syntax::Luau] {
+                let ok_parse = vlib::oracle::parses(&p, syn).is_ok();
+                let ok_lex = lex(&p, syn).is_ok();
+                if ok_parse && !ok_lex && shown < 40 {
+                    println!("{:?} parse={} lex={} {:?}", syn, ok_parse, ok_lex, p);
+                    shown += 1;
+                }
+            }
+        }
     }
 }
